@@ -592,6 +592,18 @@ def check_buffer_discipline(run):
     run.ob("R06.4", "flush_buffer:shape", ok, fb, fb["line"],
            "writes [m_buffer, m_p) to the sink, then resets m_p and m_avail" if ok else
            "flush_buffer must write (m_buffer, m_p - m_buffer) and then reset m_p = m_buffer, m_avail = BUFFER_SIZE (found %s)" % seq)
+    # ... and does so whenever something is staged: the common guard is true in every state with m_p > m_buffer
+    # (evaluated over sample states m_p = m_buffer + k, m_avail = BUFFER_SIZE - k; an atom over anything else is unknown)
+    if ok:
+        g = seq[0][2]
+        cap_ = [v for v in facts.vars if v["qn"] == "CDNS::CdnsEncoder::BUFFER_SIZE" and isinstance((v.get("init") or {}).get("cv"), int)]
+        capv = cap_[0]["init"]["cv"] if cap_ else 2048
+        verdicts = [ir.eval_formula(g, {"this.m_buffer": 4096, "this.m_p": 4096 + k_, "this.m_avail": capv - k_}) for k_ in (1, 2, capv - 1, capv)]
+        okg = False if any(v is False for v in verdicts) else (True if all(v is True for v in verdicts) else None)
+        run.ob("R06.4", "flush_buffer:whenever-staged", okg, fb, fb["line"],
+               "the write and the reset happen in every state with staged bytes (guard %s)" % show_f(g) if okg else
+               "flush_buffer writes only under %s, which is %s with bytes staged: staged bytes would stay in the buffer" % (
+                   show_f(g), "false" if okg is False else "not decidable"))
     # BUFFER_SIZE >= 9 and equals sizeof m_buffer
     bs = [v for v in facts.vars if v["qn"] == "CDNS::CdnsEncoder::BUFFER_SIZE"]
     rec = facts.record(ENC, rule="R06.4")
@@ -897,8 +909,9 @@ def general_write_string(run, f, because):
             return "flush"
         return None
     try:
+        cap = [v for v in run.facts.vars if v["qn"] == "CDNS::CdnsEncoder::BUFFER_SIZE" and isinstance((v.get("init") or {}).get("cv"), int)]
         problems, returns, notes = affine.analyse_copy(f["body"], str_p, size_p, lambda e: is_member(e, "m_avail"), lambda e: is_member(e, "m_p"),
-                                                       classify, AV, MP)
+                                                       classify, AV, MP, capacity=cap[0]["init"]["cv"] if cap else None)
     except affine.NotAffine as ex:
         run.ob("R06.5", "write_string:shape", None, f, f["line"], "write_string cannot be followed (%s; %s)" % (because, ex))
         run.floor("R06.5", 1, "write_string obligations")
